@@ -174,6 +174,10 @@ func famC13(r *Run) {
 		}
 	}
 	famC13extra(r)
+	famDeepParserLeak(r)
+	famNearTwins(r)
+	famManyDistinct(r)
+	famSameNameTypes(r)
 }
 
 func parseObs(p *jmespath.Parser, expr string) (a AObs) {
@@ -192,7 +196,7 @@ func parseObs(p *jmespath.Parser, expr string) (a AObs) {
 
 // ---- C14 ----
 func (r *Run) randomString() string {
-	pools := []string{"a", "b", "Z", "_", "0", "9", " ", "\t", "\n", "\"", "'", "`", "\\", "/", "ü", "é", "日", "本", "😀", "\u0000", "\u001f", "\u007f", "\u0080", " ", "￿", "<", "&", ".", "-", "[", "|"}
+	pools := []string{"a", "b", "Z", "_", "0", "9", " ", "\t", "\n", "\"", "'", "`", "\\", "/", "ü", "é", "日", "本", "😀", "\u0000", "\u001f", "\u007f", "\u0080", " ", "￿", "\ufffd", "\ufffc", "\U0001d11e", "\u2029", "<", "&", ".", "-", "[", "|"}
 	n := r.rng.Intn(7)
 	var b strings.Builder
 	for i := 0; i < n; i++ {
@@ -321,6 +325,8 @@ func famC14(r *Run) {
 		}
 	}
 	famC14extra(r)
+	famNearTwins(r)
+	famBackslashRuns(r)
 }
 
 func rawOrLit(s string) string {
@@ -412,4 +418,5 @@ func famC15(r *Run) {
 			}
 		}
 	}
+	famFunctionEdges(r)
 }
